@@ -175,9 +175,47 @@ def _selfcheck(cfg, what):
     return "model self-check: %s violates %s (as it must)" % (what, r["violated"])
 
 
+def _model_cache(tier):
+    """Opt-in (VERIF_C09_MODEL_CACHE=<dir>, for loops over many source trees such as lib/mutants.py on a loaded
+    machine): the model phase does not depend on the Go tree under test, so its results (state counts of the
+    exhaustive runs, that the self-checks came out as they must, the generated histories) can be kept per
+    (specification files, seed, tier).  Never used unless the variable is set; a normal run does all TLC work."""
+    d = os.environ.get("VERIF_C09_MODEL_CACHE")
+    if not d:
+        return None
+    import glob
+    import hashlib
+    h = hashlib.sha256()
+    spec = os.path.join(os.path.dirname(os.path.dirname(os.path.abspath(__file__))), "spec")
+    for f in sorted(glob.glob(os.path.join(spec, "*Auction*")) + [os.path.join(spec, "TraceLib.tla"), os.path.abspath(__file__)]):
+        with open(f, "rb") as fh:
+            h.update(f.encode() + b"\0" + fh.read())
+    h.update(("%s/%s" % (vf.seed(), tier)).encode())
+    os.makedirs(d, exist_ok=True)
+    return os.path.join(d, h.hexdigest()[:24] + ".json")
+
+
 def model(v, tier):
     """All TLC work that does not need the driver, side by side: exhaustive runs, self-checks, scenario
     generation.  Returns the histories."""
+    cache = _model_cache(tier)
+    if cache and os.path.exists(cache):
+        with open(cache) as fh:
+            c = json.load(fh)
+        for r in c["mc"]:
+            v.add_mc(r)
+        vf.log("model phase taken from %s (VERIF_C09_MODEL_CACHE): %d exhaustive runs, %d self-checks, %d histories" % (
+            cache, len(c["mc"]), c["selfchecks"], len(c["histories"])))
+        return c["histories"]
+    sc, mc, nself = _model(v, tier)
+    if cache:
+        with open(cache + ".tmp%d" % os.getpid(), "w") as fh:
+            json.dump({"mc": mc, "selfchecks": nself, "histories": sc}, fh)
+        os.replace(cache + ".tmp%d" % os.getpid(), cache)
+    return sc
+
+
+def _model(v, tier):
     from concurrent.futures import ThreadPoolExecutor
     nb, nd = (150, 90) if tier == "quick" else (1500, 800)
     wb, wd = (45, 30) if tier == "quick" else (500, 300)      # wired family
@@ -192,12 +230,15 @@ def model(v, tier):
         fm = [ex.submit(vf.tlc_exhaustive, PID, "MC_Auction", cfg, workers=w, timeout=1800,
                         coverage=(cfg == "MC_Auction_big.cfg"), heap="2g" if (cfg, w) in MC_QUICK else "6g") for cfg, w in mcs]
         fs = [ex.submit(_selfcheck, cfg, what) for cfg, what in MUST_VIOLATE] + [ex.submit(_selfcheck, cfg, None) for cfg in MUST_PASS]
+        mc = []
         for f in fm:
-            v.add_mc(f.result())
+            r = f.result()
+            v.add_mc(r)
+            mc.append({"distinct": r["distinct"], "generated": r["generated"]})
         for f in fs:
             vf.log(f.result())
         hs = fb.result()[:nb] + fd.result()[:nd] + fwb.result()[:wb] + fwd.result()[:wd]
-    return [{"sc": i + 1, "steps": h} for i, h in enumerate(hs)]
+    return [{"sc": i + 1, "steps": h} for i, h in enumerate(hs)], mc, len(fs)
 
 
 def run(tier):
